@@ -141,13 +141,15 @@ CLAIMED = {
         technique="Coq proof (encode_spec append lemma, sorted concat) + forced-schedule differential check",
     ),
     "C16": dict(
-        category="other",
-        text=("Coq model of the aligned position-range filter (validation, shifted bucket bounds, payload filter, typed "
-              "empty results) feeding the term and phrase paths, compared three-way with the real termfreqs(min_posn, "
-              "max_posn) and the spec `occurrences with all offsets inside the range`; unaligned bounds must raise."),
+        category="proof",
+        text=("Theorems (Props/C16.v, closed): for every corpus within the limits, every batch size and every aligned "
+              "(min, max) incl. one-sided ranges, the range-restricted term frequency counts exactly the offsets inside the "
+              "range, the phrase frequency (phrases without an immediately repeated term) exactly the occurrences lying "
+              "entirely inside it, an empty range gives zeros, and unaligned bounds raise ValueError for terms of the "
+              "corpus. Check = real termfreqs(min_posn, max_posn) vs model vs spec on documents spanning 6+ words."),
         design_ref="DESIGN.md 7 (C16)",
-        note=COMMON_NOTE + "Theorem (filter = bucket range) in progress.",
-        technique="Coq model + three-way correspondence",
+        note=COMMON_NOTE + "An unknown term returns zeros before the bounds are validated (outside the property's domain). No axioms.",
+        technique="Coq proof (bucket-filter lemma on the codec + chain theorem on filtered postings) + three-way correspondence",
     ),
 
     "C06": dict(
@@ -230,15 +232,16 @@ CLAIMED = {
     ),
 
     "C19": dict(
-        category="other",
-        text=("Coq model of element extraction (per-term encoded words looked up under the corpus row id), re-keying and "
-              "per-term append in the rebuilt index, compared three-way with the real constructor-on-elements, pd.concat, "
-              "take(allow_fill), reindex, shift and object round trips, against the spec `fresh index of the corresponding "
-              "documents in their new row order` (filled rows empty; docfreq / score too for constructor and concat). "
-              "Theorem (rebuilt postings = fresh index postings) in progress."),
+        category="proof",
+        text=("Theorems (Props/C19.v, closed): an array rebuilt from elements of views of fresh indexes (any key order / "
+              "repeats) and fill values — SearchArray(list(...)), pd.concat, take / reindex / shift with fill, object round "
+              "trips — has, for every term, the postings of the fresh index of the corresponding documents in their new row "
+              "order, hence answers every tf / df / lengths / positions / phrase query like that fresh index (fewer than 2^28 "
+              "rows). Check = the real pandas routes vs model vs spec, incl. docfreq and default score for constructor / "
+              "concat results."),
         design_ref="DESIGN.md 7 (C19)",
-        note=COMMON_NOTE + "pandas' concat / reindex machinery is exercised, not modelled.",
-        technique="Coq model + three-way correspondence (proof in progress)",
+        note=COMMON_NOTE + "pandas' concat / reindex machinery is exercised, not modelled. No axioms.",
+        technique="Coq proof (re-keying lemma + index_ok of the rebuilt index) + three-way correspondence",
     ),
 }
 
